@@ -324,7 +324,13 @@ pub struct RunRecord {
 
 pub fn open_log(dir: &Path, policy: &str) -> Result<MultiRecordLog, String> {
     let result = catch_unwind(AssertUnwindSafe(|| {
-        MultiRecordLog::open_with_prefs(dir, policy_of(policy))
+        // the documented default ("flushing after each operation, but not fsyncing") is reached
+        // through `open`, every other policy through `open_with_prefs`
+        if policy == "always_flush" {
+            MultiRecordLog::open(dir)
+        } else {
+            MultiRecordLog::open_with_prefs(dir, policy_of(policy))
+        }
     }));
     match result {
         Ok(Ok(log)) => Ok(log),
